@@ -46,6 +46,8 @@ pub struct Catalog {
     /// export name -> indices of targets (export names are not unique across packages)
     pub by_export: BTreeMap<String, Vec<usize>>,
     pub by_key: BTreeMap<String, usize>,
+    /// role names declared by each blueprint's auth template (candidate role-key strings)
+    pub roles: BTreeMap<String, Vec<String>>,
 }
 
 pub fn well_known_package_name(p: &PackageAddress) -> String {
@@ -92,6 +94,7 @@ impl Catalog {
         let mut packages = sim.find_all_packages();
         packages.sort();
         let mut targets = vec![];
+        let mut roles: BTreeMap<String, Vec<String>> = BTreeMap::new();
         for package in packages {
             if skip.contains(&package) {
                 continue;
@@ -109,6 +112,13 @@ impl Catalog {
                     .collect()
                 })
                 .unwrap_or_default();
+            for (bp, cfg) in &auth {
+                if let MethodAuthTemplate::StaticRoleDefinition(d) = &cfg.method_auth {
+                    if let RoleSpecification::Normal(m) = &d.roles {
+                        roles.entry(bp.clone()).or_default().extend(m.keys().map(|k| k.key.clone()));
+                    }
+                }
+            }
             let defs = sim.get_package_blueprint_definitions(&package);
             let mut defs: Vec<_> = defs.into_iter().collect();
             defs.sort_by(|a, b| a.0.blueprint.cmp(&b.0.blueprint));
@@ -165,7 +175,7 @@ impl Catalog {
             by_export.entry(t.export.clone()).or_default().push(i);
             by_key.insert(t.key(), i);
         }
-        Catalog { targets, by_export, by_key }
+        Catalog { targets, by_export, by_key, roles }
     }
 }
 
